@@ -9,7 +9,7 @@ text it captures.  Mirrors
   `sec-num-depth >= level or level > ENDSECTIONS_LEVEL`;
 * `Base/LaTeX/Numbering.py` (`\newcounter`, `\setcounter`, `\addtocounter`, `\stepcounter`);
 * `Base/LaTeX/Definitions.py` `newtheorem`;
-* `Base/LaTeX/Lists.py` `List.invoke` / `List.item.invoke` (class attribute `List.depth`, Python list indexing);
+* `Base/LaTeX/Lists.py` `List.invoke` / `List.item.invoke` (the nesting depth kept in `userdata['list-depth']`, Python list indexing);
 * `Base/LaTeX/Math.py` `eqnarray.invoke`, `eqnarray.EndRow.invoke`, `nonumber`;
 * `Packages/book.py` / `article.py` `appendix.invoke`.
 The list of outputs is what a pre-order walk of the document sees: one entry per numbered node.
@@ -47,7 +47,7 @@ inductive Ev where
 structure St where
   store : Store
   thes : TheEnv
-  /-- `List.depth` -/
+  /-- the list nesting depth (`ownerDocument.userdata['list-depth']`) -/
   depth : Int
   /-- `config['document']['sec-num-depth']` -/
   secnumdepth : Int
@@ -100,7 +100,7 @@ def listReset (i : Int) : Nat → Store → Store
     | some nm =>
       listReset (i + 1) k (setc s nm 0)
 
-/-- `List.invoke` after `List.depth` was changed -/
+/-- `List.invoke` after the depth was changed -/
 def listInvoke (st : St) (depth : Int) : St :=
   { st with depth := depth, store := listReset depth ((listCounters.length : Int) - depth).toNat st.store }
 
@@ -137,7 +137,7 @@ def step (st : St) : Ev → Except Err St
   | .beginList => .ok (listInvoke st (st.depth + 1))
   | .endList => .ok (listInvoke st (st.depth - 1))
   | .item tag hasTerm =>
-    -- `self.counter = List.counters[List.depth-1]` (IndexError: the class default `enumi` stays)
+    -- `self.counter = List.counters[depth-1]` (IndexError: the class default `enumi` stays)
     let c := (pyIndex listCounters (st.depth - 1)).getD "enumi"
     -- `\item[label]` does not step the list counter and has no number
     numbered st tag c hasTerm commandLevel
